@@ -323,13 +323,16 @@ class QGen:
         self.rng = random.Random(seed)
         rng = self.rng
         self.n = rng.choice([4, 6, 10, 16, 24])
+        self.big = rng.random() < 0.08         # scale: two-digit numbers of items and consumers
+        if self.big:
+            self.n = rng.choice([60, 90])
         self.count = 0
         self.clabel = 0
         self.w = {"put": rng.choice([3, 5, 8]), "consumer": rng.choice([2, 4, 6]), "cancel": rng.choice([0, 1, 3, 5]),
                   "gate": 6, "gate_x": rng.choice([0, 1, 2]), "join": rng.choice([1, 2]), "run": 5, "idle": 2}
 
     def config(self):
-        return {"hmask": self.rng.choice([0, 3, 5]), "maxsize": self.rng.choice([0, 0, 1, 2])}
+        return {"hmask": self.rng.choice([0, 3, 5]), "maxsize": self.rng.choice([0, 0, 1, 2] if not self.big else [0, 10, 12])}
 
     def next_step(self, sim):
         if self.count >= self.n:
@@ -340,7 +343,7 @@ class QGen:
             k = rng.choices(list(self.w), list(self.w.values()))[0]
             if k == "put":
                 return {"op": "put"}
-            if k == "consumer" and len(sim.consumers) < 6:
+            if k == "consumer" and len(sim.consumers) < (6 if not self.big else 16):
                 self.clabel += 1
                 st = {"op": "consumer", "c": self.clabel, "g": rng.choice([0, 1, 1, 2])}
                 if rng.random() < 0.15:
